@@ -20,7 +20,7 @@ CAUSES = [
     # --- declared type wider than the emitted ONNX op accepts (prims) ---
     (rf"\|invalid-graph\|prims::({_UNARY_PRIMS})\|dtype~nonfloat", "prims unary declares TTensor but emits a float-only ONNX op; torch.ops.prims accepts int/bool"),
     (r"\|invalid-graph\|prims::(add|sub|mul|div|ge|gt|le|lt|sum|pow)\|.*(dtype=bool|py:bool)", "prims binary/sum on bool: declared TTensor, emitted ONNX op has no bool overload"),
-    (r"\|prims::remainder\|.*py:", "prims::remainder (aten_remainder) with a python scalar divisor: constant typed INT64/BOOL against a float tensor"),
+    (r"\|prims::remainder\|.*py", "prims::remainder (aten_remainder) with a python scalar divisor: constant typed INT64/BOOL against a float tensor"),
     (r"\|prims::pow\|", "prims::pow: python/bool exponent or 0-d integer base"),
     (r"\|prims::(sum|var)\|shape~0d", "reduction over axis 0/-1 of a 0-d tensor (torch accepts) emits ReduceX with axes on rank 0"),
     (r"\|prims::var\|", "prims::var: correction=None / dims=[] not handled"),
@@ -40,11 +40,11 @@ CAUSES = [
     (r"aten::mean(\.dim)?\|.*dtype~nonfloat", "mean of an integer tensor with dtype=float: computed in integers / result dtype stays integer"),
     (r"aten::log_softmax\.int\|dtype_arg=None", "log_softmax.int(x, dim, None): positional dtype=None reaches Cast(to=None)"),
     # --- empty / 0-d / dim lists in reductions ---
-    (r"aten::(all|any)(\.dims?)?\|.*numel=0|aten::any(\.dim)?\|size@dim", "any over an empty tensor/axis returns True (ReduceMax/ReduceMin identity) where torch returns False"),
+    (r"aten::(all|any)(\.dims?)?\|.*(numel=0|shape=\(0\))|aten::any(\.dim)?\|size@dim", "any over an empty tensor/axis returns True (ReduceMax/ReduceMin identity) where torch returns False"),
     (r"aten::(all|any)\.dims\|.*len=0", "all/any.dims with dim=[]: torch reduces nothing (identity), torchlib reduces everything"),
     (r"aten::(all|any)\.dims\|shape~0d", "all/any.dims on a 0-d tensor with dim=[0]/[-1]: Squeeze axis out of range"),
     (r"aten::mean\.dim\|.*dim~off", "mean.dim(x, None): dim=None produces a Reshape of a missing value"),
-    (r"aten::mean\.dim\|shape~numel=0", "mean over an empty axis: ORT/reference give 0 where torch gives NaN"),
+    (r"aten::mean\.dim\|shape(~numel=0|=\(0\))", "mean over an empty axis: ORT/reference give 0 where torch gives NaN"),
     (r"aten::(amax|amin)\|dim~off", "amax/amin with dim omitted (schema default []): torchlib's signature has no default for dim -> export fails"),
     (r"aten::(amax|amin|prod\.dim_int|topk|max\.dim|min\.dim|cumsum|logsumexp|argmax|argmin|sort|glu)\|.*0d", "dim=0/-1 on a 0-d tensor (torch accepts): ONNX op emitted with an axis on rank 0"),
     (r"aten::(argmax|argmin)\|.*dim~off,keepdim~given", "argmax/argmin(dim=None, keepdim=True): result shape (1,) instead of all-ones rank"),
@@ -80,7 +80,7 @@ CAUSES = [
     # --- norm ---
     (r"aten::group_norm\|.*numel=0|aten::native_group_norm\|.*numel=0", "group_norm on an empty batch: Reshape with 0"),
     (r"aten::(native_)?layer_norm\|", "layer_norm over an empty normalized_shape / empty input: mean/rstd NaN masks differ"),
-    (r"batch_norm.*\|(shape)\|", "batch norm in evaluation mode: torch (CPU) returns empty save_mean/save_invstd, torchlib returns the running statistics"),
+    (r"\|shape\|aten::.*batch_norm", "batch norm in evaluation mode: torch (CPU) returns empty save_mean/save_invstd, torchlib returns the running statistics"),
     (r"batch_norm.*\|.*(dtype=f16|dtype=f64|any)$|invalid-graph\|aten::.*batch_norm", "batch norm on float16/float64: eps/one constants are FLOAT -> type-inconsistent Add/Div"),
     (r"\|value\|aten::.*batch_norm", "batch norm with training=True: torchlib forces training=False (TODO in the source) and normalises with the running statistics"),
     (r"aten::instance_norm\|", "instance_norm value differences"),
